@@ -31,4 +31,72 @@ func init() {
 		Outside: []string{"inputs longer than the bound", "what encoding/json actually decodes (json.Unmarshal is over-approximated: any string <= N bytes or an error)"},
 		Oracle:  "IsSet() implies no CR/LF in String(); an input containing CR or LF leaves the value unset and the route's error non-nil; an accepted value is preserved byte for byte; a Message carrying the value encodes to a wire text whose id:/event: line holds exactly that value",
 	}
+
+	// ---- replayers: one inductive step from an arbitrary ring state ----
+	finite := func(caps []int, topics int) []hrun {
+		var r []hrun
+		r = append(r, hrun{Harness: "vhC08New"})
+		for _, c := range caps {
+			for auto := 0; auto <= 1; auto++ {
+				r = append(r, hrun{Harness: "vhC08Put", Params: P("CAP", c, "AUTO", auto, "TOPICS", topics)})
+				r = append(r, hrun{Harness: "vhC08Replay", Params: P("CAP", c, "AUTO", auto, "TOPICS", topics), Covers: []string{"C08/Replay/newest-id", "C08/Replay/something-replayed", "C08/Replay/send-failure"}})
+			}
+		}
+		return r
+	}
+	checks["C08"] = &propCheck{
+		ID: "C08", Quick: finite([]int{2, 3}, 1), Thorough: finite([]int{2, 3, 4, 5}, 2),
+		Labels: []string{"C08/"},
+		Bounds: map[string]string{
+			"quick":    "capacity N in {2,3}; pre-state: every (count, head) shape of the ring, manual IDs = pairwise distinct symbolic strings <= 2 bytes / automatic IDs first+k with first in {0,7,9,98}; one topic per entry and 1 topic per subscription (symbolic bytes); one Put (ID set/unset, 0-2 topics) or one Replay (ID unset / any string <= 2 bytes / the k-th buffered ID; symbolic failing Send index; Flush failing or not). By induction over the representation invariant: Put/Replay histories of any length for these capacities.",
+			"thorough": "capacity N in {2,3,4,5}; up to 2 topics per entry and per subscription; otherwise as quick",
+		},
+		Outside: []string{"capacities above the bound (index arithmetic is uniform in N, but that is an argument, not a verdict)", "automatic IDs >= 1000 except through the chosen boundary values", "duplicate manual IDs", "an evicted automatic ID (the property leaves it open; go-sse replays everything buffered)"},
+		Oracle:  "abstract list of the last N accepted entries: Put appends (dropping the oldest when full) or rejects leaving it unchanged; Replay sends exactly the entries after the presented ID whose topics intersect, in order, then flushes; invariant 0<=head,tail<N, tail=(head+count) mod N, slots outside the window zero",
+	}
+	valid := func(sizes, topics int) []hrun {
+		var r []hrun
+		r = append(r, hrun{Harness: "vhC09New"})
+		for auto := 0; auto <= 1; auto++ {
+			pp := P("AUTO", auto, "SIZES", sizes, "TOPICS", topics)
+			r = append(r, hrun{Harness: "vhC09GC", Params: pp, Covers: []string{"C09/GC/collected-something"}})
+			r = append(r, hrun{Harness: "vhC09Put", Params: pp, Covers: []string{"C09/Put/collects", "C09/Put/grow-or-first"}})
+			r = append(r, hrun{Harness: "vhC09Replay", Params: pp, Covers: []string{"C09/Replay/newest-id", "C09/Replay/something-replayed"}})
+		}
+		return r
+	}
+	checks["C09"] = &propCheck{
+		ID: "C09", Quick: valid(2, 1), Thorough: valid(3, 1),
+		Labels: []string{"C09/"},
+		Bounds: map[string]string{
+			"quick":    "buffer length in {0,4}; every (count, head); TTL in [1, 2^40] ns, GCInterval in [-1, 2^41] ns, clock value and lastGC arbitrary 64-bit instants (now < 2^60, lastGC <= now or never); expiries arbitrary non-decreasing 64-bit instants <= now+TTL; one op of Put / Replay / GC with symbolic arguments; both ID modes. By induction: histories of any length within these buffer lengths (grow 0->4->8 occurs as a single Put).",
+			"thorough": "buffer length in {0,4,8} (grow 4->8->16 and shrink 8->4 occur as single operations); otherwise as quick",
+		},
+		Outside: []string{"a clock that goes backwards", "saturation of time.Time.Sub / instants beyond 2^60 ns", "buffer lengths above the bound"},
+		Oracle:  "abstract list with expiries: GC drops exactly the expired prefix; Put (after an optional collection exactly when GCInterval>0 and now-lastGC>=GCInterval) appends with expiry now+TTL and drops no unexpired entry; Replay sends exactly the later entries with exp>now whose topics intersect, never an expired one",
+	}
+	checks["C18"] = &propCheck{
+		ID: "C18",
+		Quick: append(each(P("CAP", 3, "AUTO", 0, "TOPICS", 1), "vhC08Put"), append(each(P("AUTO", 0, "SIZES", 3, "TOPICS", 1), "vhC09GC", "vhC09Put"), each(P("CAP", 2, "AUTO", 1, "TOPICS", 1), "vhC08Put")...)...),
+		Thorough: append(each(P("CAP", 5, "AUTO", 0, "TOPICS", 1), "vhC08Put"), append(each(P("AUTO", 0, "SIZES", 4, "TOPICS", 1), "vhC09GC", "vhC09Put"), each(P("AUTO", 1, "SIZES", 4, "TOPICS", 1), "vhC09GC", "vhC09Put")...)...),
+		Labels: []string{"C18/", "inv-dead-slots-are-zero", "holds-exactly-last-N", "drops-exactly-the-expired-prefix", "inv-"},
+		Bounds: map[string]string{
+			"quick":    "FiniteReplayer capacity 2-3, ValidReplayer buffer length in {0,4,8}: one Put/GC from every ring state; reachability decided on the executor's explicit heap (slices keep their whole backing array alive)",
+			"thorough": "FiniteReplayer capacity 5, ValidReplayer buffer length in {0,4,8,16} (all grow and shrink steps)",
+		},
+		Outside: []string{"the Go garbage collector and finalizers themselves: 'unreachable in the executor's heap' is taken to imply collectable", "messages the caller still references"},
+		Oracle:  "after the operation no evicted / collected message is reachable from the replayer value, every slot outside the live window is the zero value, and at most N messages are held",
+	}
+	checks["C19"] = &propCheck{
+		ID: "C19",
+		Quick: append([]hrun{{Harness: "vhC19Clone", Params: P("K", 3, "S", 1), Covers: []string{"C19/Clone/cloned"}}}, append(each(P("CAP", 2, "AUTO", 1, "TOPICS", 1), "vhC08Put"), each(P("AUTO", 1, "SIZES", 2, "TOPICS", 1), "vhC09Put")...)...),
+		Thorough: append([]hrun{{Harness: "vhC19Clone", Params: P("K", 3, "S", 2), Covers: []string{"C19/Clone/cloned"}}, {Harness: "vhC19Clone", Params: P("K", 4, "S", 1), Covers: []string{"C19/Clone/cloned"}}}, append(each(P("CAP", 3, "AUTO", 1, "TOPICS", 1), "vhC08Put"), append(each(P("AUTO", 1, "SIZES", 3, "TOPICS", 1), "vhC09Put"), each(P("CAP", 3, "AUTO", 0, "TOPICS", 1), "vhC08Put")...)...)...),
+		Labels: []string{"C19/", "caller-message-unchanged", "auto-id-set-on-a-copy", "copy-carries-same-content", "auto-id-next-decimal-on-copy", "auto-id-is-next-decimal"},
+		Bounds: map[string]string{
+			"quick":    "clone family of <= 3 messages starting from an arbitrary message (0-2 chunks, spare chunk capacity 0-2), every history of 3 operations from {AppendData, AppendComment (strings <= 1 symbolic byte), set ID/Type, set Retry, Clone} on any member; Put of a message into every FiniteReplayer (N=2) / ValidReplayer (len<=4) state in automatic-ID mode",
+			"thorough": "histories of 3 operations with strings <= 2 bytes and of 4 operations with strings <= 1 byte; FiniteReplayer N=3 both modes, ValidReplayer len <= 8",
+		},
+		Outside: []string{"longer histories and strings", "append growth policies other than Go's (the spare capacity is made explicit in the pre-state instead)"},
+		Oracle:  "the encodings (String) of all family members other than the one operated on are unchanged after every step; Put leaves the caller's message bit-identical and in automatic mode stores a distinct copy carrying the next decimal ID",
+	}
 }
